@@ -12,7 +12,7 @@ RULE = ("random histories of VALID updates (new_argument / remove_argument / new
 
 
 def main(ctx):
-    total = 24000 if ctx.thorough else 4000
+    total = 24000 if ctx.thorough else 3200
     dynamic_check(ctx, invalid=False, total=total, rule=RULE, modelled=MODELLED)
 
 
